@@ -312,21 +312,10 @@ fn body_placements(ch: &Ch) -> Run {
   run
 }
 
-fn body_worlds(n_specs: usize, max_edges: usize) -> impl Fn(&Ch) -> Run + Sync + Send {
+fn body_worlds(space: Space) -> impl Fn(&Ch) -> Run + Sync + Send {
   move |ch: &Ch| {
     let mut run = Run::default();
-    let world = World::generate(
-      ch,
-      &GenOpts {
-        n_specs,
-        max_edges,
-        special_targets: true,
-        allow_remote: true,
-        kinds: KINDS,
-        deviation_cost: true,
-        max_roots: 2,
-      },
-    );
+    let world = space.generate(ch, 2, None);
     let sched = Sched::new(SchedMode::Immediate);
     let loader = ScriptedLoader::new(sched);
     world.install(&loader);
@@ -392,24 +381,38 @@ pub fn prop(tier: Tier) -> Prop {
   match tier {
     Tier::Quick => parts.push(Part {
       name: "worlds",
-      body: Box::new(body_worlds(3, 2)),
+      body: Box::new(body_worlds(Space::generic(3, 2))),
       modes: vec![Mode::Deviations(2), Mode::Deviations(3)],
       what: "generic 3-specifier worlds, validation vs reference reachability of failures over the graph's recorded dependencies",
     }),
     Tier::Thorough => {
       parts.push(Part {
         name: "worlds",
-        body: Box::new(body_worlds(3, 3)),
+        body: Box::new(body_worlds(Space::generic(3, 3))),
         modes: vec![Mode::Deviations(3), Mode::Deviations(4), Mode::Deviations(5)],
         what: "generic 3-specifier worlds, <= 3 edges",
       });
       parts.push(Part {
         name: "worlds4",
-        body: Box::new(body_worlds(4, 3)),
+        body: Box::new(body_worlds(Space::generic(4, 3))),
         modes: vec![Mode::Deviations(3), Mode::Deviations(4)],
         what: "generic 4-specifier worlds, <= 3 edges",
       });
     }
+  }
+  match tier {
+    Tier::Quick => parts.push(Part {
+      name: "core",
+      body: Box::new(body_worlds(Space::core(3, 3, CORE_KINDS_QUICK))),
+      modes: vec![Mode::Full],
+      what: "every world over the core alphabet, enumerated completely: 3 specifiers (root TypeScript, others TypeScript or missing), <= 3 edges from {import, dynamic import, import type}",
+    }),
+    Tier::Thorough => parts.push(Part {
+      name: "core",
+      body: Box::new(body_worlds(Space::core(3, 3, CORE_KINDS))),
+      modes: vec![Mode::Full],
+      what: "every world over the core alphabet, enumerated completely: 3 specifiers (kinds TypeScript / missing / JavaScript / JSON / redirect), <= 3 edges from {import, dynamic import, import type}",
+    }),
   }
   Prop {
     id: "C02",
